@@ -22,6 +22,9 @@ type sizeCaseInfo struct {
 	Reach    []bool  `json:"reachable"`
 	OverLim  bool    `json:"some_message_over_limit"`
 	BaseSize []int   `json:"template_sizes"`
+	// the load-phase check puts the case in a suite with or without
+	// relies_on_message_receive_limit: expansion must not depend on it
+	LoadSuiteReliesOnLimit bool `json:"load_check_suite_relies_on_limit"`
 }
 
 const noDirective = int64(-1) << 62
@@ -150,6 +153,7 @@ func genSizeCase(tp *simrt.Tape, name string, thorough bool) (*conformancev1.Tes
 	if info.OverLim {
 		tc.ExpectedResponse = &conformancev1.ClientResponseResult{Error: &conformancev1.Error{Code: conformancev1.Code_CODE_RESOURCE_EXHAUSTED}}
 	}
+	info.LoadSuiteReliesOnLimit = !tp.Bool(1, 3, "load-suite-without-limit-flag")
 	return tc, info
 }
 
@@ -171,7 +175,7 @@ func sizeLoadCheck(dir string, tc *conformancev1.TestCase, info *sizeCaseInfo) (
 			verdict = fmt.Sprintf("panic: %v", r)
 		}
 	}()
-	suite := &conformancev1.TestSuite{Name: "LoadCheck", Mode: conformancev1.TestSuite_TEST_MODE_SERVER, ReliesOnMessageReceiveLimit: true,
+	suite := &conformancev1.TestSuite{Name: "LoadCheck", Mode: conformancev1.TestSuite_TEST_MODE_SERVER, ReliesOnMessageReceiveLimit: info.LoadSuiteReliesOnLimit,
 		RelevantCodecs: []conformancev1.Codec{conformancev1.Codec_CODEC_PROTO}, TestCases: []*conformancev1.TestCase{proto.Clone(tc).(*conformancev1.TestCase)}}
 	path, err := genSuiteFileFor(dir, suite)
 	if err != nil {
